@@ -557,20 +557,29 @@ pub fn break_tables(err: &[u8]) -> Vec<Vec<u8>> {
     let s = crate::tty::strip_ansi(err);
     let mut out = Vec::new();
     let mut rest: &[u8] = &s;
+    // between the output of the two `echo` markers (the prompt echoes in between contain no box
+    // characters, whatever the prompt looks like)
     const OPEN: &[u8] = b"[@b]\n";
-    const CMD: &[u8] = b"lace~ break list\n";
-    const CLOSE: &[u8] = b"lace~ echo @/b\n";
+    const CLOSE: &[u8] = b"[@/b]\n";
     while let Some(i) = find(rest, OPEN) {
         rest = &rest[i + OPEN.len()..];
-        let Some(j) = find(rest, CMD) else { break };
-        rest = &rest[j + CMD.len()..];
+        // of what was printed, the table itself is compared: from its first `┌` to its last `┘`
+        // (nothing when there is no table); the heading line and the "no breakpoints" notice —
+        // wording, category symbol — are free text
+        let cut = |seg: &[u8]| -> Vec<u8> {
+            let t = String::from_utf8_lossy(seg).to_string();
+            match (t.find('┌'), t.rfind('┘')) {
+                (Some(i), Some(j)) if i <= j => t[i..j + '┘'.len_utf8()].as_bytes().to_vec(),
+                _ => Vec::new(),
+            }
+        };
         match find(rest, CLOSE) {
             Some(k) => {
-                out.push(rest[..k].to_vec());
+                out.push(cut(&rest[..k]));
                 rest = &rest[k..];
             }
             None => {
-                out.push(rest.to_vec());
+                out.push(cut(rest));
                 break;
             }
         }
